@@ -17,9 +17,10 @@ REPS = {   # class -> list of (yaml text for the value of key k, literal text or
     "intSmall": [("7", None), ("0", None), ("-3", None)], "intBig": [("9007199254740993", None), ("9223372036854775807", None)],
     "floatFrac": [("2.5", None), ("0.1", None)], "floatBig": [("1e21", None)], "floatTiny": [("0.00001", None)], "boolTrue": [("true", None), ("false", None)],
     "listInt": [("[1, 2]", None)], "listStr": [('["a", "b"]', None)], "listNumStr": [('["1", "02"]', None)], "listEmpty": [("[]", None)],
+    "mapStruct": [('{a: 5, b: hey, l: [1, 2], m: {x: 1}}', None)],
     "mapFlat": [('{a: 1, b: x}', None)], "mapNested": [('{a: {b: [1, 2]}, c: "1.10"}', None)], "mapEmpty": [("{}", None)],
 }
-FTYPES = ["string", "int", "float64", "bool", "strs", "ints", "map", "any"]
+FTYPES = ["string", "int", "float64", "bool", "strs", "ints", "map", "any", "pint", "pstr", "struct", "pstruct"]
 
 
 def twin_cases(rng, all_reps):
@@ -28,7 +29,8 @@ def twin_cases(rng, all_reps):
         chosen = reps if all_reps else [rng.choice(reps)]
         for (y, lit) in chosen:
             for ft in FTYPES:
-                out.append(dict(kind="twin", **{"class": cls}, ftype=ft, yaml="k: %s\n" % y, lit=lit or ""))
+                for pre in (False, True):      # the field is zero / already holds a value of its type before the start
+                    out.append(dict(kind="twin", **{"class": cls}, ftype=ft, yaml="k: %s\n" % y, lit=lit or "", preset=pre))
     return out
 
 
@@ -42,6 +44,36 @@ def validate_cases(rng, n):
     for _ in range(n):                         # pairs and triples, larger values
         cs = [dict(k=k, n=rng.randint(0, 6)) for k in rng.sample(kinds, rng.randint(0, 3))]
         out.append(dict(kind="validate", val=str(rng.randint(0, 8)), cons=cs))
+    return out
+
+
+def modifier_cases(rng, n):
+    """positional modifiers: omitempty on scalars (every value x position x constraint), dive on lists"""
+    kinds = ["min", "max", "eq"]
+    out = []
+    om = dict(k="omitempty", n=0)
+    for v in range(0, 4):
+        for k in kinds + ["required"]:
+            for m in ([0] if k == "required" else range(0, 4)):
+                c = dict(k=k, n=m)
+                out.append(dict(kind="validate", val=str(v), cons=[om, c]))
+                out.append(dict(kind="validate", val=str(v), cons=[c, om]))
+    dive = dict(k="dive", n=0)
+    lists = [[x] for x in range(0, 4)] + [[a, b] for a in range(0, 4) for b in range(0, 4)] + [[1, 2, 3], [5, 6, 7], [3, 3, 3], [0, 4, 2]]
+    for xs in lists:
+        for k in kinds:
+            for m in range(0, 5):
+                c = dict(k=k, n=m)
+                out.append(dict(kind="vslice", xs=xs, cons=[dive, c]))
+                if len(xs) >= 2 and m <= 3:
+                    out.append(dict(kind="vslice", xs=xs, cons=[c, dive, dict(k=k, n=(m + 1) % 4)]))     # before dive: the length; after: the elements
+                    out.append(dict(kind="vslice", xs=xs, cons=[dive, om, c]))
+        out.append(dict(kind="vslice", xs=xs, cons=[dict(k="min", n=len(xs))]))          # no dive: the list itself
+    for _ in range(n):
+        xs = [rng.randint(0, 6) for _ in range(rng.randint(1, 4))]
+        cs = [dict(k=k, n=rng.randint(0, 4)) for k in rng.sample(kinds, rng.randint(0, 2))]
+        cs += [dive] + ([om] if rng.random() < 0.3 else []) + [dict(k=k, n=rng.randint(0, 6)) for k in rng.sample(kinds, rng.randint(1, 2))]
+        out.append(dict(kind="vslice", xs=xs, cons=cs))
     return out
 
 
@@ -91,5 +123,5 @@ def random_reps(rng, n):
     cases = []
     for cls, y, lit in out:
         for ft in FTYPES:
-            cases.append(dict(kind="twin", **{"class": cls}, ftype=ft, yaml="k: %s\n" % y, lit=lit or ""))
+            cases.append(dict(kind="twin", **{"class": cls}, ftype=ft, yaml="k: %s\n" % y, lit=lit or "", preset=rng.random() < 0.5))
     return cases
